@@ -591,7 +591,7 @@ pub const C06_ALPHA: &[Sym] = &[
     Sym::FlushConsume,
 ];
 
-pub fn check(ctx: &Ctx, which: Which) -> i32 {
+pub fn collect(ctx: &Ctx, which: Which) -> (Tally, Meta) {
     // (alphabet, depth) runs: the full alphabet at depth d, the one-symbol-per-guard alphabet deeper
     let runs: Vec<(&'static [Sym], usize)> = match (which, ctx.thorough) {
         (Which::C06, false) => vec![(C06_ALPHA, 4)],
@@ -638,11 +638,12 @@ pub fn check(ctx: &Ctx, which: Which) -> i32 {
             vec!["consuming finish calls are terminal symbols (the object no longer exists afterwards)".to_string()],
         ),
     };
-    finish(
-        ctx,
-        &tally,
-        Meta { level: "model_checking", rule, bound: desc, exhaustive: true, assumptions, extra: json!({"configurations": cfgs.len()}) },
-    )
+    (tally, Meta { level: "model_checking", rule, bound: desc, exhaustive: true, assumptions, extra: json!({"configurations": cfgs.len()}) })
+}
+
+pub fn check(ctx: &Ctx, which: Which) -> i32 {
+    let (tally, meta) = collect(ctx, which);
+    finish(ctx, &tally, meta)
 }
 
 pub fn explore_one(which: Which, cfg: &Cfg, fx: &Fixtures, syms: &[Sym], order: (u64, u64), t: &mut Tally) {
